@@ -28,10 +28,45 @@ package packet
 //@   props C20 C12
 //@   observe ReadPacketData, ProcessPacketData, time.Sleep
 //@   loop 0 row cancel:        [ctxdone ; close errc] -> exit
-//@   loop 0 row frame_ok:      [call ReadPacketData() as (data, ci, err) ; call ProcessPacketData(data, ci) as (perr)] when err == nil && perr == nil -> continue
-//@   loop 0 row frame_perr:    [call ReadPacketData() as (data, ci, err) ; call ProcessPacketData(data, ci) as (perr) ; send errc perr] when err == nil && perr != nil -> continue
-//@   loop 0 row frame_perr_c:  [call ReadPacketData() as (data, ci, err) ; call ProcessPacketData(data, ci) as (perr) ; ctxdone ; close errc] when err == nil && perr != nil -> exit
+//@   loop 0 row frame_ok:      [call ReadPacketData() as (data, ci, err) ; call ProcessPacketData(_, data, ci) as (perr)] when err == nil && perr == nil -> continue
+//@   loop 0 row frame_perr:    [call ReadPacketData() as (data, ci, err) ; call ProcessPacketData(_, data, ci) as (perr) ; send errc perr] when err == nil && perr != nil -> continue
+//@   loop 0 row frame_perr_c:  [call ReadPacketData() as (data, ci, err) ; call ProcessPacketData(_, data, ci) as (perr) ; ctxdone ; close errc] when err == nil && perr != nil -> exit
 //@   loop 0 row transient:     [call ReadPacketData() as (data, ci, err)] when err != nil && transient(err) -> continue
 //@   loop 0 row broken:        [call ReadPacketData() as (data, ci, err) ; close errc] when err != nil && !transient(err) && broken(err) -> exit
 //@   loop 0 row unknown:       [call ReadPacketData() as (data, ci, err) ; send errc err ; call time.Sleep(_)] when err != nil && !transient(err) && !broken(err) -> continue
 //@   loop 0 row unknown_c:     [call ReadPacketData() as (data, ci, err) ; ctxdone ; close errc] when err != nil && !transient(err) && !broken(err) -> exit
+
+// ---------------------------------------------------------------------------------------------
+// C07: sender stage (one decision-table row per received packet)
+//
+//@ func FreeSerializeBuffer
+//@   props C07
+//@   observe Clear, Put
+//@   entry row clearerr: [call Clear(buf) as (e)] when e != nil && ret == e -> exit
+//@   entry row ok:       [call Clear(buf) as (e) ; call Put(_, bind_x)] when e == nil && ret == nil && x == buf -> exit
+
+//@ func NewSerializeBuffer
+//@   trusted sync.Pool hands out a buffer nobody else owns; the pool only ever holds gopacket.SerializeBuffer values
+//@   ensures ret != nil
+
+//@ func (*sender).SendPackets$1
+//@   props C07 C12
+//@   observe Bytes, WritePacketData, FreeSerializeBuffer
+//@   loop 0 row cancel: [ctxdone ; close done ; close errc] -> exit
+//@   loop 0 row closed: [recv in as (pkt, false) ; close done ; close errc] -> exit
+//@   loop 0 row errpkt: [recv in as (pkt, true) ; send errc pkt.Err] when pkt.Err != nil -> continue
+//@   loop 0 row ok:     [recv in as (pkt, true) ; call Bytes(pkt.Buf) as (b) ; call WritePacketData(s.w, b) as (werr) ; call FreeSerializeBuffer(pkt.Buf) as (ferr)]
+//@                         when pkt.Err == nil && werr == nil && ferr == nil -> continue
+//@   loop 0 row werr:   [recv in as (pkt, true) ; call Bytes(pkt.Buf) as (b) ; call WritePacketData(s.w, b) as (werr) ; send errc werr ; call FreeSerializeBuffer(pkt.Buf) as (ferr)]
+//@                         when pkt.Err == nil && werr != nil && ferr == nil -> continue
+//@   loop 0 row ferr:   [recv in as (pkt, true) ; call Bytes(pkt.Buf) as (b) ; call WritePacketData(s.w, b) as (werr) ; call FreeSerializeBuffer(pkt.Buf) as (ferr) ; send errc ferr]
+//@                         when pkt.Err == nil && werr == nil && ferr != nil -> continue
+//@   loop 0 row both:   [recv in as (pkt, true) ; call Bytes(pkt.Buf) as (b) ; call WritePacketData(s.w, b) as (werr) ; send errc werr ; call FreeSerializeBuffer(pkt.Buf) as (ferr) ; send errc ferr]
+//@                         when pkt.Err == nil && werr != nil && ferr != nil -> continue
+
+// ---------------------------------------------------------------------------------------------
+// C15: every frame written is charged to the limiter exactly once, before the write; reading is never charged
+//@ func (*rateLimitReadWriter).WritePacketData
+//@   props C15
+//@   observe Take, WritePacketData
+//@   entry row charged: [call Take(rw.limiter) ; call WritePacketData(rw.ReadWriter, pkt) as (e)] when ret == e -> exit
